@@ -108,8 +108,10 @@ def run_op(case):
     rng = np.random.default_rng(case["oseed"])
     img, nc = case["img"], case["nc"]
     nd = len(img)
-    mps = crandn(rng, [nc] + img)
-    x = crandn(rng, img)
+    single = case["oseed"] % 6 == 0 and not case["tseg"]
+    cdt = np.complex64 if single else np.complex128
+    mps = crandn(rng, [nc] + img, cdt)
+    x = crandn(rng, img, cdt)
     traj = case["traj"]
     tseg = None
     if traj == "cart":
@@ -128,7 +130,10 @@ def run_op(case):
     elif wk == "percoil":
         w = rng.random([nc] + kshape) + 0.1
     sig = "|".join(map(str, ["op", nd, "".join("o" if s % 2 else "e" for s in img), traj, wk,
-                             "tseg" if tseg else "-", "nc%d" % min(nc, 3)]))
+                             "tseg" if tseg else "-", "nc%d" % min(nc, 3),
+                             "c64" if single else "c128"]))
+    t_exact = 1e-10 if not single else 2e-4
+    t_batch = 1e-12 if not single else 1e-5
     wit = dict(case)
     try:
         A0 = mr.linop.Sense(mps, coord=coord, weights=w, tseg=tseg)
@@ -150,7 +155,7 @@ def run_op(case):
             e = nrm(y0 - ref) / max(nrm(ref), 1e-300)
             checks += 1
             obs["cart_err"] = e
-            if not e <= 1e-10:
+            if not e <= t_exact:
                 return violated(sig, "Sense differs from sqrt(w) F(mps x) with the explicit "
                                 "centred DFT: rel %.3g" % e, wit, mech="encoding-cart", obs=obs)
         else:
@@ -171,13 +176,13 @@ def run_op(case):
                                 "by %.3g (bound %.3g)" % (e, bound), wit,
                                 mech="encoding-noncart", obs=obs)
     # ---- adjoint
-    yy = crandn(rng, tuple(A0.oshape))
+    yy = crandn(rng, tuple(A0.oshape), cdt)
     AHy = A0.H(yy)
     lhs, rhs = inner(y0, yy), inner(x, AHy)
     sc = nrm(y0) * nrm(yy) + nrm(x) * nrm(AHy) + 1e-300
     checks += 1
     obs["adjoint"] = abs(lhs - rhs) / sc
-    if not abs(lhs - rhs) <= 1e-10 * sc:
+    if not abs(lhs - rhs) <= t_exact * sc:
         return violated(sig, "Sense adjoint identity fails: %s vs %s" % (lhs, rhs), wit,
                         mech="adjoint", obs=obs)
     # ---- batching invariance
@@ -200,7 +205,7 @@ def run_op(case):
         e1 = nrm(yb - y0) / max(nrm(y0), 1e-300)
         e2 = nrm(xb - AHy) / max(nrm(AHy), 1e-300)
         worst = max(worst, e1, e2)
-        if not max(e1, e2) <= 1e-12:
+        if not max(e1, e2) <= t_batch:
             return violated(sig, "coil_batch_size=%d changes the result: forward rel %.3g, "
                             "adjoint rel %.3g" % (b, e1, e2), wit, mech="batch-value")
     obs["batch_dev"] = worst
